@@ -10,8 +10,9 @@ import json, math, os, random, collections
 import numpy as np
 import vlib
 import exprs
+import fjets
 
-ENV = json.load(open(os.path.join(vlib.VERIF, 'envelopes.json')))
+ENV = json.load(open(os.environ.get('VERIF_ENVELOPES') or os.path.join(vlib.VERIF, 'envelopes.json')))
 METHODS = ['central', 'forward', 'backward', 'complex', 'multicomplex']
 NMAX = dict(central=8, forward=8, backward=8, complex=8, multicomplex=2)
 AS = [1e-3, -1e-3, 0.125, -0.125, 1.0, -1.0, 3.0, -3.0, 100.0, -100.0, 0.0]
@@ -37,6 +38,55 @@ def tlc_programs(tier):
     return out
 
 
+def transcription_conforms(uniq):
+    """harness/fjets.py is a floating-point transcription of spec/Jets.tla; on every program TLC emitted it has to
+    reproduce the specification's rational jet (it is then used at inner points where the coefficients are irrational)"""
+    worst = 0.0
+    for r in uniq:
+        try:
+            j = fjets.run_program(r['prog'], r['c'][0] / r['c'][1], 0.0)
+        except fjets.DomainError as ex:
+            raise vlib.MachineryError('fjets rejects the specification program %s: %s' % ('.'.join(r['prog']), ex))
+        jf = exprs.jet_floats(r['jet'])
+        d = max(abs(x - y) for x, y in zip(j, jf)) / max(max(abs(v) for v in jf), 1e-300)
+        worst = max(worst, d)
+        if d > 1e-11:
+            raise vlib.MachineryError('fjets disagrees with spec/Jets.tla on %s (c=%s): %.3g' % ('.'.join(r['prog']), r['c'], d))
+    return worst
+
+
+def generic_records(uniq, tier, seed):
+    """the specification's programs at inner base values where the Taylor coefficients are irrational: u = (x - a) + p"""
+    G = ENV.get('generic')
+    if not G:
+        return []
+    seen, out = set(), []
+    for r in uniq:
+        k = tuple(r['prog'])
+        if k in seen:
+            continue
+        seen.add(k)
+        for p in G['points']:
+            try:
+                j = fjets.run_program(r['prog'], 1.0, p)
+            except fjets.DomainError:
+                continue
+            out.append(dict(prog=r['prog'], c=[1, 1], p=p, jet=[list(float(v).as_integer_ratio()) for v in j], entire=r['entire']))
+    cap = G['max_records'][tier]
+    if len(out) > cap:
+        out = random.Random(seed + 11).sample(out, cap)
+    return out
+
+
+LOSSY = ('arcsin', 'arctan')
+
+
+def cell_suffix(r, m, n):
+    """(multicomplex, n = 2): programs through Bicomplex.arcsin / Bicomplex.arctan are a separate cell (known finding)"""
+    ops = [o for o in LOSSY if o in r['prog']] if (m, n) == ('multicomplex', 2) else []
+    return ':' + '+'.join(ops) if ops else ''
+
+
 def step_options(rnd, rho, entire, method='central'):
     """(kind, constructor kwargs) ; generators are described, not instantiated (picklable)"""
     opts = []
@@ -51,10 +101,11 @@ def step_options(rnd, rho, entire, method='central'):
 
 def make_cases(recs, tier, seed):
     rnd = random.Random(seed)
-    per = 3 if tier == 'quick' else 6
+    per0 = 3 if tier == 'quick' else 6
     cases = []
     for pi, r in enumerate(recs):
         rho = exprs.radius_estimate(r['jet'])
+        per = per0 if 'p' not in r else 2
         for m in METHODS:
             for j in range(per):
                 n = (pi + j) % NMAX[m] + 1 if j else rnd.randint(0, NMAX[m])
@@ -88,7 +139,7 @@ def run_case(case):
     pi, m, n, order, a, kind, sk, arr, cval = case
     r = RECS[pi]
     c = r['c'][0] / r['c'][1]
-    f00 = exprs.make_fun(r['prog'], c, a)
+    f00 = exprs.make_fun(r['prog'], c, a, powop=(pi + n + order) % 2 == 1, p=r.get('p', 0.0))   # integer powers: operator or product
     CF = (0.6 + 0.8j) if cval else 1.0          # complex-valued f = (0.6+0.8i) * g, |factor| = 1
     f0 = (lambda z: f00(z) * CF) if cval else f00
     jf = np.array(exprs.jet_floats(r['jet']))
@@ -157,6 +208,9 @@ def run(tier, rep):
         if k not in seen:
             seen.add(k)
             uniq.append(r)
+    conf_worst = transcription_conforms(uniq)
+    ngen0 = len(uniq)
+    uniq = uniq + generic_records(uniq, tier, seed)
     RECS = uniq
     cases = make_cases(uniq, tier, seed)
     outs = vlib.pool_map(run_case, cases, chunksize=16)
@@ -168,7 +222,7 @@ def run(tier, rep):
     for case, o in zip(cases, outs):
         pi, m, n, order, a, kind, sk, arr, cval = case
         r = uniq[pi]
-        name = '%s @ c=%s a=%r | %s n=%d order=%d step=%s%s%s' % ('.'.join(r['prog']), '/'.join(map(str, r['c'])), a, m, n, order, kind, ' array' if arr else '', ' complex-valued' if cval else '')
+        name = '%s @ c=%s a=%r%s | %s n=%d order=%d step=%s%s%s' % ('.'.join(r['prog']), '/'.join(map(str, r['c'])), a, ' inner point %r' % r['p'] if 'p' in r else '', m, n, order, kind, ' array' if arr else '', ' complex-valued' if cval else '')
         if o[0] == 'raise':
             if m == 'multicomplex' and n > 2:
                 continue
@@ -195,17 +249,18 @@ def run(tier, rep):
                 err = max([err] + [abs(v) for v in vim])
         nchk += 1
         ratio = err / sigma if np.isfinite(err) else float('inf')
-        worst[(m, n, kind)] = max(worst[(m, n, kind)], ratio)
+        if not cell_suffix(r, m, n):
+            worst[(m, n, kind)] = max(worst[(m, n, kind)], ratio)
         allr[(m, n, kind)].append((ratio, name))
         if len(r['prog']) > 2 and n >= 1:
             nontriv.add((tuple(r['prog']), tuple(r['c']), m, n, order, kind))
         if not ratio <= envelope(m, n, kind):
-            rep.violation('envelope:%s:n=%d:%s' % (m, n, kind), dict(prog=r['prog'], c=r['c'], a=a, method=m, n=n, order=order, step=[kind, sk], got=vre, exact=exact, sigma=sigma, ratio=ratio, envelope=envelope(m, n, kind)),
+            rep.violation('envelope:%s:n=%d:%s%s' % (m, n, kind, cell_suffix(r, m, n)), dict(prog=r['prog'], c=r['c'], a=a, inner=r.get('p', 0.0), method=m, n=n, order=order, step=[kind, sk], got=vre, exact=exact, sigma=sigma, ratio=ratio, envelope=envelope(m, n, kind)),
                           '%s: got %r, exact (n! * jet[n]) %r, |error|/sigma = %.3g exceeds the envelope %.3g' % (name, vre, exact, ratio, envelope(m, n, kind)))
     # anchors: well-conditioned functions in every (method, n) cell, judged RELATIVE TO THE EXACT VALUE with a tight envelope
     AENV = ENV['anchor']
     acases = []
-    for pi, r in enumerate(uniq):
+    for pi, r in enumerate(uniq[:ngen0]):
         if r['prog'] in [list(p) for p in ANCHOR_PROGS] and r['c'][0] / r['c'][1] in (1.0, 3.0):
             for m in METHODS:
                 for n in range(1, NMAX[m] + 1):
@@ -234,13 +289,15 @@ def run(tier, rep):
             v = sorted(allr[k])
             print('SURVEY', k, len(v), 'median %.2g p90 %.2g max %.2g' % (v[len(v) // 2][0], v[int(len(v) * 0.9)][0], v[-1][0]), '|', v[-1][1][:90])
     states, trans, per = vlib.merge_tlc(results)
-    cov = dict(states=states, transitions=trans, traces_validated_against_impl=nchk, programs=len(uniq),
+    cov = dict(states=states, transitions=trans, traces_validated_against_impl=nchk, programs=ngen0, generic_point_records=len(uniq) - ngen0, fjets_vs_spec_worst=conf_worst,
                samples=[dict(prog=uniq[40]['prog'], c=uniq[40]['c'], jet=uniq[40]['jet'][:6])], evaluations=nchk,
                distinct_nontrivial=len(nontriv), anchor_cases=nanch, anchor_worst_over_envelope=max([0.0] + [v_ for k_, v_ in anchor_worst.items() if AENV[k_[0]][str(k_[1])]]), outside_tame_domain=untamed, skipped_overflow=sum(len(res.records) for res in results) - len(recs),
                rule='TLC enumerates all ExprMachine programs up to the depth bound (quick 2 ops x 3 scalings, thorough 3 ops); per program a seeded sample of (method, n, order, step option, base point); non-trivial = non-polynomial program and n >= 1',
                worst_ratio_over_envelope=max([worst[k] / envelope(k[0], k[1], k[2]) for k in worst] + [0.0]), tlc=per)
     assum = ['exact value = n! * jet[n] from spec/Jets.tla (K = 12); accuracy is decided on g(c*(x - a)) at x = a',
              'envelope table /verif/envelopes.json, relative to sigma = (1+|x|) * max_{k<=n+4} n!|jet_k|',
+             'inner points other than 0/1 (envelopes.json: generic.points): exact jets from harness/fjets.py, a floating-point transcription of spec/Jets.tla that is compared with the rational jets of every TLC program on each run; integer powers are written with the power operator in half of the cases',
+             '(multicomplex, n=2) programs through Bicomplex.arcsin / arctan are their own cell (key suffix), see known_findings.json',
              'default generator only for entire programs; other programs use Max generators with top step <= radius/8 (root test on the jet) and Min generators',
              'the discrete part (formula/sign/parity for every (method, n, order)) is the exhaustive MC_Rules check (C06)']
     return cov, assum
